@@ -152,6 +152,33 @@ def metricsSpec (toks : List String) : Option String := do
   let parts := keys.map fun k => s!"{k}={labels.count k}"
   pure (s!"accepted={kinds.length} closed={kinds.length} " ++ " ".intercalate parts)
 
+/-- C07 oracle (two-phase): every value a handler observed must be the fingerprint of the connection's history
+at ONE instant not earlier than the request's own HEADERS; anything else is printed as TORN. -/
+def h2concCheck (toks : List String) : Option String := do
+  let (op, obs) := splitAt2 toks
+  let max ← (← kv op "max").toNat?
+  let frames ← ((← kv op "frames").splitOn ",").mapM fun t => do pure (t, ← parseFrameTok t)
+  -- candidates per request stream id
+  let mut hist : Array Fp.H2Fp.Frame := #[]
+  let mut cands : Array (Nat × List String) := #[]
+  for (t, f) in frames do
+    hist := hist.push f
+    if t.startsWith "H" then
+      match f with
+      | .headers id _ _ => cands := cands.push (id, [])
+      | _ => pure ()
+    let v := toHex (Fp.Spec.H2Fp.fpSpec hist.toList max)
+    cands := cands.map fun (id, vs) => (id, if vs.contains v then vs else vs ++ [v])
+  let outs ← (obs.filter (· ≠ "")).mapM fun tok => do
+    match tok.splitOn "=" with
+    | [name, vals] =>
+      let id ← (name.drop 1).toString.toNat?
+      let cs := ((cands.toList.find? (·.1 == id)).map (·.2)).getD []
+      let vs := (vals.splitOn ",").map fun v => if cs.contains v then v else "TORN:" ++ v
+      pure (name ++ "=" ++ ",".intercalate vs)
+    | _ => none
+  pure (" ".intercalate outs)
+
 def handle (cmd : String) (args : List String) : String :=
   match cmd, args with
   | "ser", toks =>
@@ -191,6 +218,7 @@ def handle (cmd : String) (args : List String) : String :=
       | some stream => capSpec stream (if cuts = "" then [] else cuts.splitOn ",")
       | none => "bad-op"
     | _, _ => "bad-op"
+  | "h2conc", toks => (h2concCheck toks).getD "bad-op"
   | "h2fp", toks => (h2fpRun true toks).getD "bad-op"
   | "h2fpm", toks => (h2fpRun false toks).getD "bad-op"
   | "ja4", [h] =>
@@ -213,6 +241,7 @@ def handle (cmd : String) (args : List String) : String :=
       " drain=" ++ (if infl then "ok" else "n/a")
   | "life", _ => "closed=1 released=1"    -- C11: the proxy cut / released the connection
   | "metrics", toks => (metricsSpec toks).getD "bad-op"
+  | "e2emulti", toks => (e2eMultiExpected toks).getD "bad-op"
   | "e2e", toks => (e2eExpected toks).getD "bad-op"
   | "rw", toks => (rwModel toks).getD "bad-op"
   | "rwspec05", toks => (rwSpec05 toks).getD "bad-op"
